@@ -462,7 +462,11 @@ func (p *printer) writeSExpr(v *lisp.LVal, indent int) {
 	// For data lists (non-symbol head), preserve first-child-on-new-line.
 	isCall := v.Cells[0].Type == lisp.LSymbol
 	head := v.Cells[0]
-	if m := fmtraw.Meta(head); m != nil && len(m.LeadingComments) > 0 {
+	if m := fmtraw.Meta(head); !p.cfg.StripComments && m != nil && len(m.LeadingComments) > 0 {
+		// (With StripComments nothing is written here, so the line is not
+		// broken either: the output must be what formatting the comment-free
+		// text gives, or formatting it again would change it.)
+		//
 		// A comment written between the opening bracket and the head is
 		// attached to the head, and neither branch below wrote it: "(\n; c\n f
 		// x)" formatted to "(f x)", DELETING it.  writeListInner has always
